@@ -18,8 +18,8 @@ ID = "C10"
 CASES = {"quick": 2400, "thorough": 30000}
 FLOOR = {"quick": 1800, "thorough": 22000}
 FLOOR_COUNTERS = {
-    "quick": {"alphas_judged": 9000, "fold_captures": 1800, "rank_deficient_fits": 350, "r2_fits": 400, "explicit_cv_fits": 400, "n_jobs_2_fits": 10, "one_dimensional_targets": 200, "estimators_with_a_past": 700, "integer_typed_features": 150, "non_default_containers": 1000, "configured_by:set_params": 200, "configured_by:setattr": 200, "configured_by:clone": 200},
-    "thorough": {"alphas_judged": 110000, "fold_captures": 22000, "rank_deficient_fits": 4000, "r2_fits": 5000, "explicit_cv_fits": 5000, "n_jobs_2_fits": 100, "one_dimensional_targets": 2500, "estimators_with_a_past": 9000, "integer_typed_features": 2000, "non_default_containers": 12000, "configured_by:set_params": 2500, "configured_by:setattr": 2500, "configured_by:clone": 2500},
+    "quick": {"alphas_judged": 9000, "fold_captures": 1800, "rank_deficient_fits": 350, "r2_fits": 400, "explicit_cv_fits": 400, "n_jobs_2_fits": 10, "one_dimensional_targets": 200, "estimators_with_a_past": 700, "integer_typed_features": 150, "non_default_containers": 1000, "configured_by:set_params": 200, "configured_by:setattr": 200, "configured_by:clone": 200, "cutoffs_exactly_on_a_singular_value": 80, "stateful_random_generators": 300},
+    "thorough": {"alphas_judged": 110000, "fold_captures": 22000, "rank_deficient_fits": 4000, "r2_fits": 5000, "explicit_cv_fits": 5000, "n_jobs_2_fits": 100, "one_dimensional_targets": 2500, "estimators_with_a_past": 9000, "integer_typed_features": 2000, "non_default_containers": 12000, "configured_by:set_params": 2500, "configured_by:setattr": 2500, "configured_by:clone": 2500, "cutoffs_exactly_on_a_singular_value": 1000, "stateful_random_generators": 4000},
 }
 RULE = (
     "case = X (tall / wide / exactly rank-deficient through duplicated or combined columns / column-scaled; largest "
@@ -39,6 +39,8 @@ SCORERS = ("neg_mean_squared_error", "neg_root_mean_squared_error", "r2", None)
 def gen(rng, tier, index):
     hi = 30 if tier == "quick" else 60
     shape = gens.pick(rng, ("tall", "tall", "wide", "deficient", "deficient", "scaled"))
+    if index % 25 == 3:
+        return _gen_indicator(rng)
     if shape == "wide":
         n, m = int(rng.integers(8, 16)), int(rng.integers(10, hi))
     else:
@@ -76,10 +78,11 @@ def gen(rng, tier, index):
             alphas[0] = 0.0
     if p == 1 and rng.random() < 0.5:
         Y = Y[:, 0].copy()  # a single target given as a 1-D array
-    cvk = gens.pick(rng, ("none", "default", "shuffle", "pairs", "pairs_unequal", "kfold", "int"))
+    cvk = gens.pick(rng, ("none", "default", "shuffle", "pairs", "pairs_unequal", "kfold", "int", "shuffle_rs", "kfold_rs"))
     cv = {"kind": cvk}
-    if cvk == "shuffle":
+    if cvk in ("shuffle", "shuffle_rs", "kfold_rs"):
         cv["seed"] = int(rng.integers(1000))
+        cv["n_splits"] = 2
     elif cvk in ("pairs", "pairs_unequal"):
         perm = rng.permutation(n)
         cut = n // 2 if cvk == "pairs" else int(rng.integers(max(3, n // 4), n - 2))
@@ -113,6 +116,35 @@ def gen(rng, tier, index):
     }
 
 
+def _gen_indicator(rng):
+    """Indicator (one-hot / count) design: one entry +-1 per row, so the columns are orthogonal and the singular values of
+    each fold are sqrt(count) - chosen as perfect squares, i.e. the integers 1, 2, 3 - and a round alpha grid lands
+    exactly ON singular values: the documented cut-off keeps a direction only if its singular value is LARGER."""
+    m = int(rng.integers(2, 6))
+    c1, c2 = rng.choice([1, 4, 9], size=m), rng.choice([1, 4, 9], size=m)
+    rows, fold = [], []
+    for f_, cnt in ((0, c1), (1, c2)):
+        for j_ in range(m):
+            for _ in range(int(cnt[j_])):
+                r_ = np.zeros(m)
+                r_[j_] = float(rng.choice([-1.0, 1.0]))
+                rows.append(r_)
+                fold.append(f_)
+    perm = rng.permutation(len(rows))
+    X = np.array(rows)[perm]
+    fold = np.array(fold)[perm]
+    i1, i2 = np.flatnonzero(fold == 0), np.flatnonzero(fold == 1)
+    p = int(gens.pick(rng, (1, 2)))
+    Y = X @ rng.normal(size=(m, p)) + rng.normal(size=(len(X), p))
+    grid = np.array(sorted(set(float(v) for v in rng.choice([0.5, 1.0, 1.5, 2.0, 2.5, 3.0, 3.5], size=int(rng.integers(2, 6)), replace=False))))
+    return {
+        "X": X, "Y": Y, "shape": "indicator", "alphas": grid, "alpha_type": "absolute",
+        "method": gens.pick(rng, ("cutoff", "cutoff", "cutoff", "tikhonov")), "scoring": gens.pick(rng, SCORERS),
+        "cv": {"kind": "pairs", "pairs": [[i1, i2], [i2, i1]]}, "n_jobs": None, "xint": None, "how": "ctor", "xform": "C", "yform": "C",
+        "carry": "same", "past": False, "pseed": 0, "Z": rng.normal(size=(5, m)),
+    }
+
+
 def _cv_object(cv, n):
     from sklearn.model_selection import KFold
 
@@ -123,6 +155,10 @@ def _cv_object(cv, n):
         return None, {}, None
     if k == "shuffle":
         return None, {"shuffle": True, "random_state": cv["seed"]}, KFold(n_splits=2, shuffle=True, random_state=cv["seed"])
+    if k == "shuffle_rs":  # a stateful generator: the folds are the FIRST split drawn from its state at fit time
+        return None, {"shuffle": True, "random_state": np.random.RandomState(cv["seed"])}, KFold(n_splits=2, shuffle=True, random_state=np.random.RandomState(cv["seed"]))
+    if k == "kfold_rs":
+        return KFold(n_splits=2, shuffle=True, random_state=np.random.RandomState(cv["seed"])), {}, KFold(n_splits=2, shuffle=True, random_state=np.random.RandomState(cv["seed"]))
     if k in ("pairs", "pairs_unequal"):
         pairs = [(np.asarray(a), np.asarray(b)) for a, b in cv["pairs"]]
         return pairs, {}, pairs
@@ -225,6 +261,8 @@ def run(case, j):
     est = forms.carry(est, case.get("carry", "same"), j)  # what is read afterwards may be a copy of what was fitted
     if case["n_jobs"] == 2:
         j.note("n_jobs_2_fits")
+    if case["cv"]["kind"] in ("shuffle_rs", "kfold_rs"):
+        j.note("stateful_random_generators")
     # ---- folds
     if cv_ref is None:
         if "f1" not in seen:
@@ -256,9 +294,12 @@ def run(case, j):
     scale = max(s1[0], s2[0]) if atype == "relative" else 1.0
     scaled = alphas * scale
     # a cut-off that coincides with a singular value to rounding makes the kept set ambiguous
+    exact = case["shape"] == "indicator" and all(np.all(s_ == np.round(s_)) for s_ in (s1, s2))  # the SVD returned the integers exactly
+    if exact:
+        j.note("cutoffs_exactly_on_a_singular_value", int(sum(np.any(s_ == a_) for a_ in scaled for s_ in (s1, s2))))
     if method == "cutoff":
         for a_ in scaled:
-            for s_ in (s1, s2, sf):
+            for s_ in ((sf,) if exact else (s1, s2, sf)):
                 big = s_[s_ > 1e-9 * s_[0]]
                 if np.any(np.abs(big - a_) <= 1e-9 * big):
                     raise Skip("cutoff-coincides-with-singular-value")
